@@ -978,11 +978,14 @@ class SmiV2Parser(AbstractParser):
     def p_Compliances(self, p):
         """Compliances : Compliances Compliance
                        | Compliance"""
+        # OBJECT items are parsed and dropped (None), GROUP items are kept
         n = len(p)
         if n == 3:
-            p[0] = p[1] and p[2] and ('Compliances', p[1][1] + [p[2]]) or p[1]
-        elif n == 2:
-            p[0] = p[1] and ('Compliances', [p[1]]) or None
+            compliances = (p[1] and p[1][1] or []) + (p[2] and [p[2]] or [])
+        else:
+            compliances = p[1] and [p[1]] or []
+
+        p[0] = compliances and ('Compliances', compliances) or None
 
     def p_Compliance(self, p):
         """Compliance : ComplianceGroup
